@@ -13,20 +13,21 @@ def stall_part(res, cfg, binary, rng):
     for prof in ("debug", "release"):
         b = c.build_harness(prof)[0]
         outs = []
-        for mode in (1, 2, 3):
+        for mode in (1, 2, 3, 4):
             try:
                 outs.append(c.run_lines(b, ["stall %d" % mode], timeout=90)[0])
             except c.CheckError as e:
                 if "exited 124" not in str(e):
                     raise
                 outs.append(None)     # the call did not return within 90 s (a budgeted call takes < 1 s)
-        for mode, out in zip((1, 2, 3), outs):
+        for mode, out in zip((1, 2, 3, 4), outs):
             if out is None:
                 res.evaluations += 1
                 res.count("stall-mode-%d:no-return" % mode)
                 bad.append({"schedule": "stall %d" % mode, "impl": "no return within 90 s", "profile": prof,
                             "why": ["snapshot() did not return: the daemon %s and the client call never ended" %
-                                    ("stalled mid-update right after the client's first generation load" if mode == 1 else "kept publishing")]})
+                                    {1: "stalled mid-update right after the client's first generation load", 2: "kept publishing",
+                                     3: "died mid-update after two publications", 4: "was restarted over a wiped segment and never published (generation 0 from the call's first record load on)"}[mode]]})
                 continue
             n, ret, kinds, ms = out.split()[:4]
             n = int(n)
@@ -36,6 +37,8 @@ def stall_part(res, cfg, binary, rng):
             bound = 2 + cfg["retries"] * (_shm.NCELL + 3)
             if n > bound:
                 bad.append({"schedule": "stall %d" % mode, "impl": out, "why": ["%d accesses exceed the proved bound %d" % (n, bound)]})
+            if mode == 4:
+                continue          # the call returns at once (the generation is stable at 0); only its returning is required here
             if ret != "E":
                 bad.append({"schedule": "stall %d" % mode, "impl": out, "why": ["a call that can never see a stable generation returned %s" % ret]})
             if mode == 3:
